@@ -75,7 +75,11 @@ func init() {
 	core.RegisterHelper("c09client", func(args []string) int {
 		// c09client <cache> <tar> <specjson> <clientId> <nops> <seed> <idx> <logfile>
 		var s c09Spec
-		if err := json.Unmarshal([]byte(args[2]), &s); err != nil {
+		specData, err := os.ReadFile(args[2])
+		if err != nil {
+			return 3
+		}
+		if err := json.Unmarshal(specData, &s); err != nil {
 			return 3
 		}
 		id, _ := strconv.Atoi(args[3])
@@ -177,7 +181,7 @@ func c09Hist(c *core.C, idx int, race bool) {
 			tarArg = "1"
 		}
 		for i := 0; i < clients; i++ {
-			cmd := exec.Command(core.SelfExe(), "helper", "c09client", cache, tarArg, string(specJSON), strconv.Itoa(i), strconv.Itoa(nops), strconv.FormatUint(c.Seed, 10), strconv.Itoa(idx), filepath.Join(logDir, fmt.Sprintf("c%d.log", i)))
+			cmd := exec.Command(core.SelfExe(), "helper", "c09client", cache, tarArg, c09SpecFile(c, specJSON), strconv.Itoa(i), strconv.Itoa(nops), strconv.FormatUint(c.Seed, 10), strconv.Itoa(idx), filepath.Join(logDir, fmt.Sprintf("c%d.log", i)))
 			cmd.Env = os.Environ()
 			if sleepUS > 0 {
 				cmd.Env = append(cmd.Env, fmt.Sprintf("VERIF_SLEEP=store.unlocked:%d,store.writing:%d,store.files.copied:%d,os.close.closed:%d", sleepUS, sleepUS, sleepUS, sleepUS))
